@@ -31,6 +31,16 @@ namespace smt
         return sat->propagate();
     }
 
+    void theory::backtrack_to_conflict() noexcept
+    { // a conflict might involve lower decision levels only (e.g., when a client has changed some bounds directly, out of propagation)..
+        size_t c_level = 0;
+        for (const auto &l : cnfl)
+            if (c_level < sat->level[variable(l)])
+                c_level = sat->level[variable(l)];
+        while (sat->decision_level() > c_level)
+            sat->pop();
+    }
+
     void theory::analyze_and_backjump() noexcept
     {
         // we create a conflict clause for the analysis..
